@@ -78,7 +78,7 @@ VisitAvail ==
          vp == P \cap visited
          wait == ShouldWait(TRUE, P, visited, roots, n)
          i == ToSet(e.in)  o == ToSet(e.out)
-         expIn == MeetOut(fout, vp)
+         expIn == RootIn(TRUE, roots, n, MeetOut(fout, vp))
          expCh == IF wait THEN changed
                   ELSE ChangedAfter(changed, i, o, fin[n], fout[n], n \notin visited, TRUE)
      IN /\ SayAll("DRIFT", e,
@@ -116,7 +116,8 @@ VisitLive ==
   /\ UNCHANGED <<pass, order, prevs, nexts, roots, waiting, sweeps, lastEnd>>
 
 \* ---- the end of a sweep / of the run
-OffMeet == { n \in DOMAIN fin : fin[n] # MeetOut(fout, prevs[n]) }
+\* (a node that had to be promoted to a root is an entry of unreachable code: nothing is known there)
+OffMeet == { n \in DOMAIN fin : fin[n] # RootIn(TRUE, roots, n, MeetOut(fout, prevs[n])) }
 OffJoin == { n \in DOMAIN fin : fout[n] # UNION { fin[s][1] : s \in nexts[n] } }
 SameStart(p) == lastEnd[p] # NoRun /\ lastEnd[p].prevs = prevs
 SweepEnd ==
